@@ -334,6 +334,11 @@ func (vfs *MemFS) Link(oldname, newname string) error {
 		return &os.LinkError{Op: op, Old: oldname, New: newname, Err: nerr}
 	}
 
+	// The parent directory of newname must exist.
+	if !pi.IsLast() {
+		return &os.LinkError{Op: op, Old: oldname, New: newname, Err: nerr}
+	}
+
 	nParent.mu.Lock()
 	defer nParent.mu.Unlock()
 
@@ -767,6 +772,11 @@ func (vfs *MemFS) Rename(oldpath, newpath string) error {
 		return &os.LinkError{Op: op, Old: oldpath, New: newpath, Err: nErr}
 	}
 
+	// The parent directory of newpath must exist.
+	if vfs.isNotExist(nErr) && !nPI.IsLast() {
+		return &os.LinkError{Op: op, Old: oldpath, New: newpath, Err: nErr}
+	}
+
 	oParent.mu.Lock()
 	defer oParent.mu.Unlock()
 
@@ -900,7 +910,7 @@ func (vfs *MemFS) Symlink(oldname, newname string) error {
 	const op = "symlink"
 
 	parent, _, pi, nerr := vfs.searchNode(newname, slmLstat)
-	if !vfs.isNotExist(nerr) {
+	if !vfs.isNotExist(nerr) || !pi.IsLast() {
 		return &os.LinkError{Op: op, Old: oldname, New: newname, Err: nerr}
 	}
 
